@@ -1432,6 +1432,17 @@ fn lit_inputs(l: &LitLine, print: bool) -> Value {
     json!({"kind":"literal","text":l.text,"print":print,"program":format!("{}{}\n", if print { "PRINT " } else { "X = " }, l.text)})
 }
 
+/// Classifier for a wrong value: a floating literal of the right type that is the NEIGHBOUR of the nearest value
+/// (magnitudes one unit in the last place apart) is a rounding failure, anything else a plain wrong value.
+fn value_kind(exp: &LitV, got: &LitV) -> &'static str {
+    let adjacent = match (exp, got) {
+        (LitV::Single(a), LitV::Single(b)) => a.is_finite() && b.is_finite() && (a.abs().to_bits() as i64 - b.abs().to_bits() as i64).abs() == 1,
+        (LitV::Double(a), LitV::Double(b)) => a.is_finite() && b.is_finite() && (a.abs().to_bits() as i128 - b.abs().to_bits() as i128).abs() == 1,
+        _ => false,
+    };
+    if adjacent { "misrounded" } else { "value" }
+}
+
 /// The literal oracle for one parsed line.
 fn judge_literal(l: &LitLine, obs: &LitObs, print: bool) -> Result<(), Violation> {
     let suffix = if l.neg { ":after-minus" } else { "" };
@@ -1444,14 +1455,14 @@ fn judge_literal(l: &LitLine, obs: &LitObs, print: bool) -> Result<(), Violation
             } else if got.as_f64() == l.exp.as_f64() && std::mem::discriminant(got) != std::mem::discriminant(&l.exp) {
                 fail("type", format!("literal `{}` has type {} instead of {}", l.text, got.type_name(), l.exp.type_name()), l.exp.show(), got.show())
             } else {
-                fail("value", format!("literal `{}` does not denote its written value", l.text), l.exp.show(), got.show())
+                fail(value_kind(&l.exp, got), format!("literal `{}` does not denote its written value", l.text), l.exp.show(), got.show())
             }
         }
         LitObs::Negated(got) if l.neg => {
             if got.same(&l.exp) {
                 Ok(())
             } else {
-                fail("value", format!("the literal after the minus sign in `{}` is wrong", l.text), format!("-({})", l.exp.show()), format!("-({})", got.show()))
+                fail(value_kind(&l.exp, got), format!("the literal after the minus sign in `{}` is wrong", l.text), format!("-({})", l.exp.show()), format!("-({})", got.show()))
             }
         }
         LitObs::Negated(got) => fail("shape", format!("literal `{}` parsed as a negation", l.text), l.exp.show(), format!("-({})", got.show())),
@@ -1467,7 +1478,7 @@ fn judge_literal(l: &LitLine, obs: &LitObs, print: bool) -> Result<(), Violation
                 },
             };
             if !exact {
-                return fail("value", format!("`{}` does not denote minus the written value", l.text), format!("-({})", l.exp.show()), got.show());
+                return fail(value_kind(&l.exp, got), format!("`{}` does not denote minus the written value", l.text), format!("-({})", l.exp.show()), got.show());
             }
             // whatever the type, the folded literal must be a value of that type (INTEGER 32768 does not exist)
             let in_range = match got {
@@ -1620,6 +1631,178 @@ fn oct_text(v: u64, zeros: usize, lower_prefix: bool, neg: bool) -> String {
 }
 
 // ---------------------------------------------------------------------------------------------
+// rounding-critical fraction literals
+//
+// The statement says that a fraction literal denotes "exactly its written value" as a SINGLE (DOUBLE with #):
+// the value of that type NEAREST to the written decimal.  Where "nearest" is decided is next to a rounding
+// boundary: the midpoint of two adjacent values of the type.  The literals below are written from the EXACT
+// decimal expansion of such a midpoint (every m * 2^e has a finite one), taken as it is (a tie: the neighbour
+// with the even significand, IEEE 754 round-to-nearest-even, which is also what the reference conversion does),
+// or moved off the midpoint by less than one unit of its last digit (above: the upper neighbour; below: the
+// lower one), and in the same three ways around a representable value (always that value).  The expectation is
+// known by construction from exact decimal-string arithmetic; the oracle proper (`analyse_literal`, working
+// from the text alone, also on replay) is Rust's correctly rounded `str::parse`; the generator insists that
+// the two agree.
+// ---------------------------------------------------------------------------------------------
+
+/// Exact decimal expansion of m * 2^e (m > 0): integer digits (no leading zeros, "0" if none) and fraction
+/// digits (no trailing zeros, possibly empty).
+fn dyadic_decimal(m: u128, e: i32) -> (String, String) {
+    assert!(m > 0);
+    if e >= 0 {
+        assert!((128 - m.leading_zeros()) as i32 + e < 127, "dyadic_decimal: too large");
+        return ((m << e).to_string(), String::new());
+    }
+    let mut int: Vec<u8> = m.to_string().bytes().map(|b| b - b'0').collect();
+    let mut frac: Vec<u8> = vec![];
+    for _ in 0..(-e) {
+        // halve the decimal number int.frac digit by digit
+        let mut rem = 0u8;
+        for d in int.iter_mut().chain(frac.iter_mut()) {
+            let v = rem * 10 + *d;
+            *d = v / 2;
+            rem = v % 2;
+        }
+        if rem == 1 {
+            frac.push(5);
+        }
+    }
+    let first = int.iter().position(|d| *d != 0).unwrap_or(int.len() - 1);
+    let ip: String = int[first..].iter().map(|d| (b'0' + d) as char).collect();
+    while frac.last() == Some(&0) {
+        frac.pop();
+    }
+    let fp: String = frac.iter().map(|d| (b'0' + d) as char).collect();
+    (ip, fp)
+}
+
+/// digits - 1 in the last place, for a digit string that denotes a positive number
+fn dec_string_pred(digits: &str) -> String {
+    let mut d: Vec<u8> = digits.bytes().collect();
+    let mut i = d.len();
+    loop {
+        assert!(i > 0, "dec_string_pred of zero");
+        i -= 1;
+        if d[i] == b'0' {
+            d[i] = b'9';
+        } else {
+            d[i] -= 1;
+            break;
+        }
+    }
+    String::from_utf8(d).unwrap()
+}
+
+#[derive(Clone, Copy, PartialEq, Eq, Debug)]
+enum Anchor {
+    /// the midpoint between the value with the given bits and the next one up
+    Midpoint,
+    /// the value with the given bits itself
+    Representable,
+}
+
+#[derive(Clone, Copy, PartialEq, Eq, Debug)]
+enum Nudge {
+    Exact,
+    Above,
+    Below,
+}
+
+/// One literal next to a rounding boundary. `bits`: a positive normal f32 (dbl = false) or f64 pattern whose
+/// successor is finite too. `pad`: zeros / nines written between the exact expansion and the deciding digit.
+/// Returns the text and the value it must denote BY CONSTRUCTION (without the sign).
+fn critical_text(dbl: bool, bits: u64, anchor: Anchor, nudge: Nudge, pad: usize, zeros: usize, neg: bool) -> (String, LitV) {
+    let (m, e): (u128, i32) = if dbl {
+        let ef = ((bits >> 52) & 0x7ff) as i32;
+        assert!(ef > 0 && ef < 0x7fe && bits >> 63 == 0);
+        (((bits & ((1u64 << 52) - 1)) | (1u64 << 52)) as u128, ef - 1023 - 52)
+    } else {
+        let ef = ((bits >> 23) & 0xff) as i32;
+        assert!(ef > 0 && ef < 0xfe && bits >> 31 == 0);
+        (((bits & 0x7f_ffff) | 0x80_0000) as u128, ef - 127 - 23)
+    };
+    let value = |b: u64| if dbl { LitV::Double(f64::from_bits(b)) } else { LitV::Single(f32::from_bits(b as u32)) };
+    // the gap between bits and bits+1 is 2^e, so their midpoint is (2m+1) * 2^(e-1)
+    let ((ip, fp), exp) = match anchor {
+        Anchor::Midpoint => (
+            dyadic_decimal(2 * m + 1, e - 1),
+            match nudge {
+                Nudge::Exact => value(if bits % 2 == 0 { bits } else { bits + 1 }),
+                Nudge::Above => value(bits + 1),
+                Nudge::Below => value(bits),
+            },
+        ),
+        Anchor::Representable => {
+            // written with all -e fraction digits, so that one unit of the last digit (10^e) is below a quarter of the gap (2^(e-2))
+            let (ip, fp) = dyadic_decimal(m, e);
+            let width = if e < 0 { (-e) as usize } else { 0 };
+            ((ip, format!("{:0<width$}", fp, width = width)), value(bits))
+        }
+    };
+    // the nudge is smaller than one unit of the last digit of the exact expansion, which is smaller than the
+    // distance from the anchor to the nearest rounding boundary on that side (see the module comment)
+    let (ip, fp) = match nudge {
+        Nudge::Exact => {
+            let fp = if fp.is_empty() { format!("0{}", "0".repeat(pad)) } else { format!("{}{}", fp, "0".repeat(pad)) };
+            (ip, fp)
+        }
+        Nudge::Above => (ip, format!("{}{}1", fp, "0".repeat(pad))),
+        Nudge::Below => {
+            let all = dec_string_pred(&format!("{}{}", ip, fp));
+            let (a, b) = all.split_at(ip.len());
+            (a.to_string(), format!("{}{}9", b, "9".repeat(pad)))
+        }
+    };
+    // integer part: strip zeros produced by the borrow, then write the requested leading zeros; a zero integer part may be left out
+    let ip = ip.trim_start_matches('0');
+    let ip = if ip.is_empty() { if zeros == 0 { String::new() } else { "0".repeat(zeros) } } else { format!("{}{}", "0".repeat(zeros), ip) };
+    (format!("{}{}.{}{}", if neg { "-" } else { "" }, ip, fp, if dbl { "#" } else { "" }), exp)
+}
+
+fn float_bits(dbl: bool, exponent: i32, mantissa: u64) -> u64 {
+    if dbl { (((exponent + 1023) as u64) << 52) | (mantissa & ((1u64 << 52) - 1)) } else { (((exponent + 127) as u64) << 23) | (mantissa & 0x7f_ffff) }
+}
+
+/// number of significant decimal digits written
+fn significant_digits(text: &str) -> usize {
+    let d: String = text.chars().filter(|c| c.is_ascii_digit()).collect();
+    d.trim_start_matches('0').len()
+}
+
+/// Analyses a rounding-critical literal, insists that the expectation by construction and the reference
+/// conversion agree, and labels the case.
+fn critical_line(text: &str, by_construction: Option<LitV>, what: &str, tally: &mut Tally) -> LitLine {
+    let l = analyse_literal(text).unwrap_or_else(|e| panic!("C10 literal generator/oracle disagreement on {}: {}", text, e));
+    if let Some(c) = by_construction {
+        if !c.same(&l.exp) {
+            panic!("C10: `{}` denotes {} by construction but {} by the reference conversion", text, c.show(), l.exp.show());
+        }
+    }
+    let ty = if matches!(l.exp, LitV::Double(_)) { "double" } else { "single" };
+    tally.class(&format!("literal:critical:{}:{}", ty, what));
+    let n = significant_digits(text);
+    tally.class(&format!(
+        "literal:critical:{}:significant-digits={}",
+        ty,
+        if n <= 9 { "01-09" } else if n <= 17 { "10-17" } else if n <= 25 { "18-25" } else if n <= 40 { "26-40" } else { "41+" }
+    ));
+    if l.neg {
+        tally.class("literal:critical:after-minus");
+    }
+    // measured, not assumed: does the literal tell "nearest SINGLE" from "nearest DOUBLE, then nearest SINGLE"?
+    if let LitV::Single(f) = l.exp {
+        let body = text.trim_start_matches('-');
+        let canon = if body.starts_with('.') { format!("0{}", body) } else { body.to_string() };
+        if let Ok(d) = canon.parse::<f64>() {
+            if (d as f32).to_bits() != f.to_bits() {
+                tally.class("literal:critical:single:two-step-rounding-differs");
+            }
+        }
+    }
+    l
+}
+
+// ---------------------------------------------------------------------------------------------
 // the property
 // ---------------------------------------------------------------------------------------------
 
@@ -1676,6 +1859,29 @@ fn flush_literals(sh: &mut Shard, texts: &mut Vec<String>, print: bool, tally: &
     let last = lines[lines.len() - 1].text.clone();
     sh.sample_sparse(11, || json!({"kind":"literal-batch","print":print,"first":first,"last":last}));
     let viols = check_literals(sh, &lines, print, tally);
+    let mut go = true;
+    for v in viols {
+        go = sh.report(Err(v)) && go;
+    }
+    go
+}
+
+/// Like `flush_literals` for lines that are analysed already.
+fn flush_lit_lines(sh: &mut Shard, lines: &mut Vec<LitLine>, tally: &mut Tally) -> bool {
+    if lines.is_empty() {
+        return true;
+    }
+    for l in lines.iter() {
+        sh.eval();
+        if l.nontrivial {
+            sh.nontrivial(hash64(&l.text));
+        }
+    }
+    let first = lines[0].text.clone();
+    let last = lines[lines.len() - 1].text.clone();
+    sh.sample_sparse(5, || json!({"kind":"literal-batch","print":false,"first":first,"last":last}));
+    let viols = check_literals(sh, lines, false, tally);
+    lines.clear();
     let mut go = true;
     for v in viols {
         go = sh.report(Err(v)) && go;
@@ -1904,6 +2110,146 @@ impl C10 {
         go
     }
 
+    /// Fraction literals next to the rounding boundaries of SINGLE and DOUBLE, enumerated part.
+    fn run_critical_literals(&self, sh: &mut Shard) -> bool {
+        let mut tally = Tally::default();
+        let mut lines: Vec<LitLine> = vec![];
+        let mut idx = 0u64;
+        let thorough = sh.tier == Tier::Thorough;
+        let pads_off: &[usize] = if thorough { &[0, 1, 2, 3, 5, 8, 11, 14, 17, 20, 26] } else { &[0, 3, 8, 14, 20] };
+        let pads_exact: &[usize] = if thorough { &[0, 1, 3, 8] } else { &[0, 3] };
+        let pads_repr: &[usize] = if thorough { &[0, 3, 8, 20] } else { &[0, 8] };
+        for dbl in [false, true] {
+            let (e_hi, full): (i32, u64) = if dbl { (60, (1u64 << 52) - 1) } else { (40, 0x7f_ffff) };
+            let low: u64 = if thorough { 8 } else { 4 };
+            let mut mantissas: Vec<u64> = (0..low).collect();
+            mantissas.extend((0..low.min(if thorough { 8 } else { 3 })).map(|k| full - k));
+            for exponent in -12..=e_hi {
+                for mant in &mantissas {
+                    idx += 1;
+                    if !sh.mine(idx) {
+                        continue;
+                    }
+                    let bits = float_bits(dbl, exponent, *mant);
+                    let mut n = idx;
+                    let mut emit = |anchor: Anchor, nudge: Nudge, pad: usize, lines: &mut Vec<LitLine>, tally: &mut Tally| {
+                        n += 1;
+                        let neg = n % 2 == 0;
+                        let zeros = if n % 5 == 0 { 1 + (n % 2) as usize } else { 0 };
+                        let (text, exp) = critical_text(dbl, bits, anchor, nudge, pad, zeros, neg);
+                        let what = format!("{}-{}", if anchor == Anchor::Midpoint { "midpoint" } else { "representable" }, match nudge {
+                            Nudge::Exact => "exact",
+                            Nudge::Above => "above",
+                            Nudge::Below => "below",
+                        });
+                        lines.push(critical_line(&text, Some(exp), &what, tally));
+                    };
+                    for pad in pads_exact {
+                        emit(Anchor::Midpoint, Nudge::Exact, *pad, &mut lines, &mut tally);
+                    }
+                    for pad in pads_off {
+                        emit(Anchor::Midpoint, Nudge::Above, *pad, &mut lines, &mut tally);
+                        emit(Anchor::Midpoint, Nudge::Below, *pad, &mut lines, &mut tally);
+                    }
+                    for pad in pads_repr {
+                        emit(Anchor::Representable, Nudge::Exact, *pad, &mut lines, &mut tally);
+                        emit(Anchor::Representable, Nudge::Above, *pad, &mut lines, &mut tally);
+                        emit(Anchor::Representable, Nudge::Below, *pad, &mut lines, &mut tally);
+                    }
+                    if lines.len() >= LIT_BATCH && !flush_lit_lines(sh, &mut lines, &mut tally) {
+                        tally.flush(sh);
+                        return false;
+                    }
+                }
+            }
+        }
+        let go = flush_lit_lines(sh, &mut lines, &mut tally);
+        tally.flush(sh);
+        sh.exhaustive(if thorough {
+            "rounding boundaries: every SINGLE with binary exponent -12..40 and every DOUBLE with binary exponent -12..60 whose significand fraction is one of the 8 lowest or 8 highest: the exact decimal expansion of the midpoint to its successor (0/1/3/8 trailing zeros), that expansion moved above and below by one digit after 0,1,2,3,5,8,11,14,17,20,26 zeros/nines, and the value itself exact/above/below (0,3,8,20); signs and leading zeros alternating"
+        } else {
+            "rounding boundaries: every SINGLE with binary exponent -12..40 and every DOUBLE with binary exponent -12..60 whose significand fraction is one of 0,1,2,3 or the 3 highest: the exact decimal expansion of the midpoint to its successor (0/3 trailing zeros), that expansion moved above and below by one digit after 0,3,8,14,20 zeros/nines, and the value itself exact/above/below (0,8); signs and leading zeros alternating"
+        });
+        go
+    }
+
+    /// Fraction literals next to rounding boundaries of random values, and long random digit strings.
+    fn run_random_critical_literals(&self, sh: &mut Shard) {
+        let per_case = 40usize;
+        let cells = 12usize;
+        let cases = sh.share(sh.tier.pick(480, 12_000));
+        sh.search(23, cases, per_case * cells, per_case * cells, |sh, tape| {
+            let mut tally = Tally::default();
+            let mut lines = vec![];
+            for k in 0..per_case {
+                let mut t = Tape::new(&tape[k * cells..(k + 1) * cells]);
+                let dbl = t.chance(1, 3);
+                let family = t.choose(8);
+                let neg = t.chance(1, 3);
+                let zeros = if t.chance(1, 4) { 1 + t.choose(3) } else { 0 };
+                let r1 = t.raw() as u64;
+                let r2 = t.raw() as u64;
+                let l = if family == 7 {
+                    // long digit strings that are near nothing in particular: the reference conversion alone decides
+                    let mut rng = Rng(r1 << 32 | r2);
+                    let ilen = t.choose(21);
+                    let flen = 1 + t.choose(30);
+                    let mut ip = String::new();
+                    for i in 0..ilen {
+                        let d = rng.below(10) as u8;
+                        ip.push((b'0' + if i == 0 { 1 + d % 9 } else { d }) as char);
+                    }
+                    let fp: String = (0..flen).map(|_| (b'0' + rng.below(10) as u8) as char).collect();
+                    let ip = if ilen == 0 && zeros == 0 { String::new() } else { format!("{}{}", "0".repeat(if ilen == 0 { zeros } else { zeros.min(2) }), ip) };
+                    let text = format!("{}{}.{}{}", if neg { "-" } else { "" }, ip, fp, if dbl { "#" } else { "" });
+                    critical_line(&text, None, "long-random-digits", &mut tally)
+                } else {
+                    let e_hi: i64 = if dbl { 60 } else { 40 };
+                    let prec: i64 = if dbl { 52 } else { 23 };
+                    let exponent = match t.choose(4) {
+                        0 => t.range(0, prec + 1),
+                        1 => t.range(-12, -1),
+                        2 => t.range(prec + 1, e_hi),
+                        _ => t.range(-12, e_hi),
+                    } as i32;
+                    let full: u64 = (1u64 << prec) - 1;
+                    let mant = match t.choose(6) {
+                        0 => 0,
+                        1 => full,
+                        2 => r1 % 16,
+                        3 => full - r1 % 16,
+                        // few significant bits: short expansions
+                        4 => (r1 % 4096) << (prec - 12),
+                        _ => (r1 << 32 | r2) & full,
+                    };
+                    let anchor = if family < 5 { Anchor::Midpoint } else { Anchor::Representable };
+                    let nudge = match t.choose(3) {
+                        0 => Nudge::Above,
+                        1 => Nudge::Below,
+                        _ => Nudge::Exact,
+                    };
+                    let pad = t.choose(25);
+                    let bits = float_bits(dbl, exponent, mant);
+                    let (text, exp) = critical_text(dbl, bits, anchor, nudge, pad, zeros, neg);
+                    let what = format!("{}-{}", if anchor == Anchor::Midpoint { "midpoint" } else { "representable" }, match nudge {
+                        Nudge::Exact => "exact",
+                        Nudge::Above => "above",
+                        Nudge::Below => "below",
+                    });
+                    critical_line(&text, Some(exp), &what, &mut tally)
+                };
+                sh.eval();
+                sh.nontrivial(hash64(&l.text));
+                lines.push(l);
+            }
+            let s = lines[per_case / 2].text.clone();
+            sh.sample_sparse(3, || json!({"kind":"literal","text":s}));
+            let viols = check_literals(sh, &lines, false, &mut tally);
+            tally.flush(sh);
+            triage_all(sh, viols)
+        });
+    }
+
     fn run_random_literals(&self, sh: &mut Shard) {
         // 32-bit values in all three notations
         let per_case = 250usize;
@@ -2025,7 +2371,7 @@ impl Prop for C10 {
         "C10"
     }
     fn rule(&self) -> &'static str {
-        "(a) Chains x0 op1 x1 .. opn xn over the 13 binary operators, unary minus / NOT only where the stated ranks determine their operand (chain start, after `(`, after a binary operator of lower rank, after a unary operator of not higher rank), parenthesis pairs around operand ranges; all sequences up to n=3 (quick) / n=5 (thorough) enumerated with the parenthesis/unary products listed under exhaustive_parts, plus random chains of up to 12 operators, 3 pairs and 2 unary operators per operand. Operands are integers 1..12 (literals, INTEGER variables Q1%..Q12% holding 1..12, or alternating), chosen per chain so that the stated grouping evaluates inside INTEGER with whole quotients and differs from neighbouring groupings. ~400 chains per program (`PRINT <chain>` lines). Oracle 1: the parsed Expression mapped to Binary/Unary/Paren/Leaf equals the tree of a precedence-climbing parser over the same text (ranks from the statement; `-literal` folded on both sides; regroupings that cannot change a value — AND/OR re-association, -(x*y) vs (-x)*y — are counted, not failed). Oracle 2: for chains whose tree is right the printed value equals the value of the expected tree. Non-trivial: chains with at least two operators (binary or unary), distinct by text. (b) Literals: every 16-bit value in decimal/&H/&O with 0..3 leading zeros, letter cases and a minus sign in front, 2^k+-1, random 32-bit values, decimal integers of 10..25 digits, fractional literals with and without #; ~500 `X = <lit>` lines per program, expected Expression variant and exact value from the statement's rule (float values: correctly rounded, i.e. Rust's str::parse of the same digits); every fourth batch of integer literals is PRINTed and the output compared. Non-trivial: within 2 of a type boundary, or with leading zeros, sign, or fraction."
+        "(a) Chains x0 op1 x1 .. opn xn over the 13 binary operators, unary minus / NOT only where the stated ranks determine their operand (chain start, after `(`, after a binary operator of lower rank, after a unary operator of not higher rank), parenthesis pairs around operand ranges; all sequences up to n=3 (quick) / n=5 (thorough) enumerated with the parenthesis/unary products listed under exhaustive_parts, plus random chains of up to 12 operators, 3 pairs and 2 unary operators per operand. Operands are integers 1..12 (literals, INTEGER variables Q1%..Q12% holding 1..12, or alternating), chosen per chain so that the stated grouping evaluates inside INTEGER with whole quotients and differs from neighbouring groupings. ~400 chains per program (`PRINT <chain>` lines). Oracle 1: the parsed Expression mapped to Binary/Unary/Paren/Leaf equals the tree of a precedence-climbing parser over the same text (ranks from the statement; `-literal` folded on both sides; regroupings that cannot change a value — AND/OR re-association, -(x*y) vs (-x)*y — are counted, not failed). Oracle 2: for chains whose tree is right the printed value equals the value of the expected tree. Non-trivial: chains with at least two operators (binary or unary), distinct by text. (b) Literals: every 16-bit value in decimal/&H/&O with 0..3 leading zeros, letter cases and a minus sign in front, 2^k+-1, random 32-bit values, decimal integers of 10..25 digits, fractional literals with and without #; ~500 `X = <lit>` lines per program, expected Expression variant and exact value from the statement's rule (float values: correctly rounded, i.e. Rust's str::parse of the same digits); every fourth batch of integer literals is PRINTed and the output compared. Non-trivial: within 2 of a type boundary, or with leading zeros, sign, or fraction. (c) Rounding-critical fraction literals (value class: the written decimal lies next to a rounding boundary of its type, 10..70 significant digits): the exact decimal expansion of the midpoint of two adjacent SINGLE (no #) / DOUBLE (#) values — itself (a tie: even significand), moved above / below the midpoint by one digit placed after 0..26 zeros / nines (upper / lower neighbour) — and the same around a representable value; enumerated for all binary exponents -12..40 (SINGLE) / -12..60 (DOUBLE) with the lowest and highest significands (powers of two and their predecessors, where the gap changes), random significands/exponents/distances otherwise; plus random digit strings of up to 20+30 digits; each also after a minus sign, with leading zeros or without integer part. Expected value: known by construction (exact decimal-string arithmetic on m*2^e) AND Rust's correctly rounded str::parse of the same digits, which must agree (the generator aborts otherwise); compared bit for bit with the parsed SingleLiteral/DoubleLiteral. The class `two-step-rounding-differs` counts (measured) the SINGLE literals for which rounding to DOUBLE first would give another SINGLE. A result exactly one unit in the last place off gets the sig kind `misrounded`."
     }
     fn assumptions(&self) -> Vec<&'static str> {
         vec![
@@ -2035,6 +2381,8 @@ impl Prop for C10 {
             "&h / &o lower-case prefixes and hex/octal literals with more than 32 significant bits are outside the statement (rejections are counted as discards)",
             "a chain that the linter rejects after the parser built the right tree is discarded and counted (typing rules are other properties)",
             "values: only whole numbers inside INTEGER occur in the expected evaluation, so no rounding, overflow or print-format rule is involved",
+            "a fraction literal denotes the value of its type NEAREST to the written decimal (the statement: exactly its written value, as SINGLE, or DOUBLE with #); a decimal exactly half-way between two adjacent values denotes the one with the even significand (IEEE 754 round-to-nearest-even, the rule of the reference conversion); literals are kept inside the normal range of their type (no overflow to infinity, no subnormals)",
+            "rounding-critical literals are observed in the parse tree only (bit-exact SingleLiteral / DoubleLiteral); printing them would involve the PRINT number format, which is another property",
         ]
     }
     fn run(&self, sh: &mut Shard) {
@@ -2048,7 +2396,11 @@ impl Prop for C10 {
         if !self.run_special_literals(sh) {
             return;
         }
+        if !self.run_critical_literals(sh) {
+            return;
+        }
         self.run_random_literals(sh);
+        self.run_random_critical_literals(sh);
     }
     fn replay(&self, sh: &mut Shard, inputs: &Value) -> Result<(), Violation> {
         let mut tally = Tally::default();
